@@ -248,6 +248,25 @@ pub fn run(s: &mut Session, ctx: &Ctx) {
             || format!("{:?} vs {:?}; hues {:?} vs {:?}", r1, r2, c1.to_hsla().h, c2.to_hsla().h),
         );
     }
+    // ---- colours that are black (or white) up to rounding: tiny lightness / value, any saturation:
+    // float channels can be -1e-17, and every derived number must still be finite ----
+    for i in 0..(if ctx.thorough { 40_000 } else { 3_000 }) {
+        let h = rng.range(0.0, 360.0);
+        let u = rng.unit();
+        let sat = *rng.pick(&[1.0, 0.5, 0.1, 1e-3, u]);
+        let tiny = 10f64.powf(rng.range(-19.0, -12.0)) * if i % 7 == 0 { 0.0 } else { 1.0 };
+        let l = if i % 2 == 0 { tiny } else { 1.0 - tiny };
+        for (name, c) in [("from_hsl", Color::from_hsl(h, sat, l)), ("from_hsv", Color::from_hsv(h, sat, l))] {
+            let input = format!("Color::{}({:?}, {:?}, {:?})", name, h, sat, l);
+            s.count_case("", true);
+            check_valid(s, &format!("Color::{} (nearly black/white)", name), &input, &c);
+            // and the consequence that made this visible: mixing with black in OkLab stays dark
+            if i % 2 == 0 {
+                let m = ops::mix_impl("oklab", &c, &Color::black(), 0.5).to_rgba();
+                s.check(m.r <= 1 && m.g <= 1 && m.b <= 1, "oklab-mix-of-blacks-is-black", "Color::mix::<OkLab>", || input.clone(), || format!("{:?}", m));
+            }
+        }
+    }
     // ---- the short constructors are the full ones with alpha 1 ----
     for _ in 0..(if ctx.thorough { 20_000 } else { 1_000 }) {
         let (a, b, c) = (gen::coord(&mut rng, 0.0, 360.0), gen::coord(&mut rng, 0.0, 1.0), gen::coord(&mut rng, 0.0, 1.0));
